@@ -257,6 +257,80 @@ def worker(args):
     return viol, dict(stats), sorted("%s|%s" % k for k in seen_kinds), (reqs[-1]["xml"] if reqs else None)
 
 
+def wire_worker(args):
+    """the client's encrypted send path end to end: messages handed to QXmppClient::sendSensitive() of a connected client whose encryption
+    extension (a stand-in that, like the OMEMO manager, returns the message with its sensitive fields set and marks it with XEP-0380 only
+    when it has a body - or always) has 'encrypted' it; judged: what the server receives"""
+    import wire
+    wid, count = args
+    binary = vf.build_harness("wire")
+    r = vf.rng("c17-wire", wid)
+    pool = load_pool()
+    kinds = list(pool.keys())
+    cases, metas = [], []
+    per = 40
+    for s0 in range(0, count, per):
+        mgr = r.choice(["fakee2ee", "fakee2ee-mark"])
+        steps = [wire.client(managers=[mgr])] + wire.login_sasl(sm=True) + [dict(op="wait_signal", name="connected")]
+        sent = []
+        for i in range(min(per, count - s0)):
+            ks = r.sample(kinds, r.choice([1, 1, 2, 3, 5, 8]))
+            if r.random() < 0.5:
+                ks = [k for k in ks if k != ("", "body")]      # messages without a body: reactions, receipts, markers, chat states ...
+            xml, parts = build(r, pool, ks)
+            if not parts:
+                continue
+            steps.append(dict(op="sendSensitive", xml=xml))
+            sent.append((xml, parts))
+        steps += [dict(op="fence", sm=True), dict(op="settle", quiet=15), dict(op="fence", sm=True)]
+        cases.append(dict(steps=steps, timeout=8000))
+        metas.append((mgr, sent))
+    outs, crashes = wire.run_cases(binary, cases)
+    viol, stats, inconc = [], collections.Counter(), []
+    for rq, info in crashes:
+        viol.append(("crash " + vf.crash_sig(info), "sanitizer report / abnormal exit in the encrypted send path", {"stderr": info["stderr"][-3000:]}))
+    for out, (mgr, sent) in zip(outs, metas):
+        if not out:
+            continue
+        if out["stalled"] >= 0:
+            inconc.append("session stalled at step %s" % out["stalled"])
+            continue
+        on_wire = {}
+        for e in wire.srv_rx(out["journal"]):
+            if e["tag"] == "message" and e.get("id", "").startswith("MSGID-"):
+                on_wire[e["id"]] = e["xml"]
+        for xml, parts in sent:
+            mid = minidom.parseString(xml.encode("utf8")).documentElement.getAttribute("id")
+            got = on_wire.get(mid)
+            stats["wire_messages"] += 1
+            if got is None:
+                viol.append(("wire encrypted-message-not-sent", "a message handed to sendSensitive() never reached the server", {"message": xml, "extension": mgr}))
+                continue
+            sens_tokens = set()
+            for k, x in parts:
+                if CLASS[k] == S:
+                    tokens(minidom.parseString(x.encode("utf8")).documentElement, sens_tokens)
+            pub_tokens = set()
+            for k, x in parts:
+                if CLASS[k] != S:
+                    tokens(minidom.parseString(x.encode("utf8")).documentElement, pub_tokens)
+            w = {"message": xml, "on_the_wire": got, "extension": mgr + (" (marks every message with XEP-0380)" if mgr.endswith("mark") else " (marks only messages with a body, like the OMEMO manager)")}
+            leaked_kind = [key(c) for c in children(got) if CLASS.get(key(c)) == S]
+            # (the XEP-0380 marker and the stand-in's "ciphertext" element are put there by the extension itself)
+            own = "".join(c.toxml() for c in children(got) if key(c) in (("urn:xmpp:eme:0", "encryption"), ("urn:example:fake-e2ee", "encrypted")))
+            rest = "".join(c.toxml() for c in children(got) if key(c) not in (("urn:xmpp:eme:0", "encryption"), ("urn:example:fake-e2ee", "encrypted")))
+            leaked_tok = [t for t in sens_tokens - pub_tokens if t in rest]
+            if leaked_kind:
+                viol.append(("wire leak %s" % (leaked_kind[0][1]), "the stanza the client put on the wire for an encrypted message contains the sensitive element <%s xmlns='%s'/>" % (leaked_kind[0][1], leaked_kind[0][0]), w))
+            elif leaked_tok:
+                viol.append(("wire leak value", "the stanza on the wire contains a value of a sensitive element", dict(w, value=leaked_tok[0][:100])))
+            else:
+                stats["wire_public_only"] += 1
+                if not any(k == ("", "body") for k, _ in parts):
+                    stats["wire_bodyless_public_only"] += 1
+    return viol, dict(stats), inconc
+
+
 def main(tier, replay=None):
     V = vf.Verdict("C17", tier)
     vf.build_harness("msg")
@@ -271,11 +345,19 @@ def main(tier, replay=None):
         stats.update(st)
         kinds |= set(ks)
         sample = sample or smp
+    with ProcessPoolExecutor(max_workers=W) as ex:
+        res2 = list(ex.map(wire_worker, [(w, (1600 if tier == "quick" else 80000) // W) for w in range(W)]))
+    for viol, st, inconc in res2:
+        for sig, what, w in viol:
+            V.violation(sig, what, w)
+        for i in inconc:
+            V.inconc(i)
+        stats.update(st)
     cov = {"evaluations": stats["messages"], "distinct_nontrivial": stats["messages"],
            "rule": "messages assembled from the %d known extension element kinds found in the repository's message fixtures (each classified public / sensitive / both from the property statement): every single kind, every pair, "
                    "and random subsets up to all kinds, parsed in combined mode, optionally given an explicit fallback body, serialized the way the client's encrypted send path (toXml(ScePublic)) and the OMEMO manager "
                    "(serializeExtensions(SceSensitive)) do, and recovered with parse(ScePublic)+parseExtensions(SceSensitive); messages are distinct by construction (random ids)" % len(CLASS),
            "observed": dict(stats), "extension_kinds_exercised": len(kinds), "samples": [{"message": sample}]}
-    floors = {"messages": stats["messages"] > 100, "all_kinds_exercised": len(kinds) == len(CLASS), "leak_checked": stats["leak_checked"] > 0, "recovery_checked": stats["recovery_checked"] > 0}
+    floors = {"messages": stats["messages"] > 100, "all_kinds_exercised": len(kinds) == len(CLASS), "leak_checked": stats["leak_checked"] > 0, "recovery_checked": stats["recovery_checked"] > 0, "wire_public_only": stats["wire_public_only"] > 100, "wire_bodyless": stats["wire_bodyless_public_only"] > 20}
     V.finish(cov, "exploration", ["classification of extension kinds is our reading of the statement", "unknown (application-defined) extensions and <error/> are not judged",
                                   "objects are built by parsing fixtures in combined mode, not through setters"], floors)
